@@ -241,7 +241,9 @@ func (st *c05Stats) triple(family string, o, l, d jv, sample bool) {
 	inDomain := !hasNull(last) && !hasNull(des) && !dupKeys(obs, last, des)
 	r.EvalDistinct(inDomain && len(des) > 0 && len(obs) > 0)
 	fo, fl, fd := canon(obs), canon(lastArg), canon(des)
-	desc := func() interface{} { return jm{"family": family, "observed": obs, "lastApplied": lastArg, "desired": des} }
+	desc := func() interface{} {
+		return jm{"family": family, "observed": obs, "lastApplied": lastArg, "desired": des}
+	}
 	if sample {
 		r.Sample(desc())
 	}
